@@ -51,11 +51,14 @@ def prog(style: int, kind: int, level: int, k: int, cos: bool,
         inst = P()
         sel = inst.param.s if level == 1 else P.param.s
         events = []
+        changed_events = []
         (inst if level == 1 else P).param.watch(lambda e: events.append(e), 's', what='objects', onlychanged=False)
+        (inst if level == 1 else P).param.watch(lambda e: changed_events.append(e), 's', what='objects')
     fresh = 3
     for o, i, j in steps:
         n = len(model)
         nev = len(events)
+        ncev = len(changed_events)
         before = list(model)
         mutation = True
         res = exp = None
@@ -163,6 +166,9 @@ def prog(style: int, kind: int, level: int, k: int, cos: bool,
                 if (style == 0 and o in (4, 5)) or (style == 1 and o in (2, 3)):
                     check('C18.pop_returns', res[1] == exp[1], dict(info, popkind=('int' if (style == 0 or o == 3) else 'key')))
                 check('C18.one_event', len(events) == nev + 1, dict(info, n=len(events) - nev))
+                if model != before:
+                    # a changes-only watcher is told about every mutation that changes the objects
+                    check('C18.one_event', len(changed_events) == ncev + 1, dict(info, n=len(changed_events) - ncev, changes_only=True))
         else:
             # value assignment: membership checked against the *current* objects
             assume(0 <= i <= fresh)
